@@ -26,7 +26,8 @@ Inductive ferr :=
   | ErrNoCtab | ErrVersion
   | ErrIndex        (* IndexError *)
   | ErrValue        (* ValueError *)
-  | ErrHeader.      (* MGHError / HeaderDataError *)
+  | ErrHeader       (* MGHError / HeaderDataError *)
+  | ErrAlias.       (* a memory map read past the end of its (truncated) file: zeros or SIGBUS *)
 Inductive res (A : Type) := Ok (a : A) | Err (e : ferr).
 Arguments Ok {A}. Arguments Err {A}.
 
@@ -529,3 +530,48 @@ Definition get_data_shape (dims : list Z) : list Z :=
 Definition ndims (dims : list Z) : Z := 3 + (if 1 <? nth 3 dims 0 then 1 else 0).
 Definition get_zooms (m : mgh) : list Z :=
   mdelta m ++ (if 3 <? ndims (mdims m) then [mtr m] else []).
+
+(* ------------------------------------------------------------------ saving onto a file an array is mapped from
+   MGHImage.to_file_map: data = unmap_if_target(np.asanyarray(self.dataobj), file_map); then the
+   file is opened 'wb' (truncated), header written, array_to_file(data) at 284, footer.
+   An array is either in memory (Own) or a memory map of (name, offset, length): its value is
+   whatever the file holds WHEN it is read. *)
+Inductive buffer := Own (b : list Z) | Mapped (name off len : Z).
+Definition fsys := list (Z * list Z).
+Fixpoint fs_get (fs : fsys) (name : Z) : option (list Z) :=
+  match fs with
+  | [] => None
+  | (n, b) :: r => if n =? name then Some b else fs_get r name
+  end.
+Definition fs_set (fs : fsys) (name : Z) (b : list Z) : fsys := (name, b) :: fs.
+
+(* reading a buffer now; a map reaching past the end of its file is undefined (ErrAlias) *)
+Definition buf_read (fs : fsys) (buf : buffer) : res (list Z) :=
+  match buf with
+  | Own b => Ok b
+  | Mapped name off len =>
+    match fs_get fs name with
+    | Some f => if (0 <=? off) && (0 <=? len) && (off + len <=? zlen f) then Ok (take len (drop off f)) else Err ErrAlias
+    | None => Err ErrAlias
+    end
+  end.
+Definition aliases (buf : buffer) (target : Z) : bool :=
+  match buf with Own _ => false | Mapped name _ _ => name =? target end.
+
+(* `copies` = the writer's decision to copy the array before opening the target;
+   unmap_if_target makes it true exactly when the array is a memmap of the target *)
+Definition mgh_save (fs : fsys) (target : Z) (m : mgh) (buf : buffer) (copies : bool) : res fsys :=
+  let step (b : buffer) : res fsys :=
+    let h := hdr_bytes m in
+    let fs1 := fs_set fs target (h ++ zeros (DATA_OFFSET - zlen h)) in       (* 'wb', header, seek(284) *)
+    match buf_read fs1 b with
+    | Err e => Err e
+    | Ok data => Ok (fs_set fs target (mgh_write m data))
+    end in
+  if copies then
+    match buf_read fs buf with
+    | Err e => Err e
+    | Ok v => step (Own v)
+    end
+  else step buf.
+Definition unmap_if_target_decision (buf : buffer) (target : Z) : bool := aliases buf target.
